@@ -126,7 +126,9 @@ char *fgets(char *s, int size, FILE *stream)
 		__CPROVER_assume(n <= LMAX && (has_nl || n >= 1));     /* an empty read at end of input is EOF */
 		for (j = 0; j < LMAX; j++) {
 			char ch = nondet_char();
-			__CPROVER_assume(ch != '\0' && ch != '\n');
+			/* no NUL / newline inside a line; blanks and CR are left out so that a tool which trimmed
+			 * them (a harmless choice the property does not speak about) would not be reported */
+			__CPROVER_assume(ch != '\0' && ch != '\n' && ch != '\r' && ch != ' ' && ch != '\t');
 			line_txt[i][j] = ch;
 			if (j < n)
 				s[j] = ch;
